@@ -292,3 +292,24 @@ package kv
 //@   ensures[a_registered_family_is_returned_and_never_replaced] old(has(s.families, familyName)) ==> (err == nil && family == old(s.families[familyName]) && calls(newFamilyFunc) == old(calls(newFamilyFunc)) && all(k, "string", has(s.families, k) == old(has(s.families, k)) && s.families[k] == old(s.families[k])))
 //@   ensures[a_new_family_is_registered_under_its_name_only] (!old(has(s.families, familyName)) && err == nil) ==> (has(s.families, familyName) && s.families[familyName] == family && all(k, "string", k != familyName ==> (has(s.families, k) == old(has(s.families, k)) && s.families[k] == old(s.families[k]))))
 //@ end
+
+//@ # ---- placement of rolled-up points (C04): the merger hands the aggregation the rule "target position of source slot
+//@ # s = BaseSlot() + s / IntervalRatio()" (merger.prepare copies both values into the merge context,
+//@ # aggregation.DownSamplingMultiSeriesInto applies it), while the target slot range is sized with the slot mapping
+//@ # CalcSlot(GetTimestamp(s)). The property asks for the slot that contains the timestamp, so the rule has to agree
+//@ # with the mapping for every interval pair the database option admits ----------------------------------------------
+//@ func rollup.IntervalRatio
+//@   prop C04
+//@   arith math
+//@   requires int64(r.source) >= 1000 && int64(r.target) >= int64(r.source) && int64(r.target) <= 86400000 && int64(r.target) / int64(r.source) <= 65535
+//@   ensures[the_ratio_is_the_integer_quotient_of_the_intervals] int64(result) == int64(r.target) / int64(r.source)
+//@ end
+//@ func rollup.BaseSlot
+//@   prop C04
+//@   arith math
+//@   requires int64(r.target) >= 1000 && tsOK(r.sourceFTime) && calMs(r.targetFTime) && r.targetFTime <= r.sourceFTime && r.sourceFTime <= kFamilyEnd(intervalKind(int64(r.target)), r.targetFTime)
+//@   ensures[the_base_slot_contains_the_start_of_the_source_family] r.targetFTime + int64(result) * int64(r.target) <= r.sourceFTime && r.sourceFTime < r.targetFTime + int64(result) * int64(r.target) + int64(r.target)
+//@ end
+//@ # src/tgt: source and target interval, d: start of the source family minus start of the target family, s: source slot,
+//@ # b: base slot (contains d), t: the target slot that contains the timestamp of s (both as proved for the real methods)
+//@ lemma rollup_placement_rule_agrees_with_the_slot_mapping prop C04: all(src, "int", all(tgt, "int", all(d, "int", all(s, "int", all(b, "int", all(t, "int", (src >= 1000 && tgt >= 300000 && tgt <= 3600000 && tgt >= src && d >= 0 && d <= 86400000 && d % 3600000 == 0 && s >= 0 && s * src < 3600000 && b * tgt <= d && d < b * tgt + tgt && t * tgt <= d + s * src && d + s * src < t * tgt + tgt) ==> b + s / (tgt / src) == t))))))
